@@ -34,10 +34,12 @@ IsB(x) == x.k = "bool"
 BoolR(b) == [k |-> "bool", v |-> b]
 StrR(cs) == [k |-> "str", cs |-> cs]
 
+Big(a) == a.n > 30000 \/ a.n < -30000 \/ a.d > 30000
 Arith(op, a, b) ==
   IF a.k = "err" \/ b.k = "err" THEN ErrV
   ELSE IF a.k = "null" \/ b.k = "null" THEN NullV
   ELSE IF ~IsRat(a) \/ ~IsRat(b) THEN ErrV
+  ELSE IF Big(a) \/ Big(b) THEN ErrV          \* beyond TLC's 32-bit integers: not decided
   ELSE CASE op = "+" -> Norm(a.n * b.d + b.n * a.d, a.d * b.d)
          [] op = "-" -> Norm(a.n * b.d - b.n * a.d, a.d * b.d)
          [] op = "*" -> Norm(a.n * b.n, a.d * b.d)
@@ -47,6 +49,7 @@ Arith(op, a, b) ==
 Compare(op, a, b) ==
   IF a.k = "err" \/ b.k = "err" THEN ErrV
   ELSE IF a.k = "null" \/ b.k = "null" THEN NullV
+  ELSE IF IsRat(a) /\ IsRat(b) /\ (Big(a) \/ Big(b)) THEN ErrV
   ELSE IF IsRat(a) /\ IsRat(b) THEN
          LET l == a.n * b.d  r == b.n * a.d IN
          BoolR(CASE op = "=" -> l = r [] op = "!=" -> l # r [] op = "<" -> l < r [] op = "<=" -> l <= r [] op = ">" -> l > r [] op = ">=" -> l >= r)
@@ -62,20 +65,84 @@ LowerC(c) == CASE c = "A" -> "a" [] c = "B" -> "b" [] c = "C" -> "c" [] c = "X" 
 Floor(a) == IF a.n >= 0 THEN a.n \div a.d ELSE -((-a.n + a.d - 1) \div a.d)
 Ceil(a)  == -Floor(Rat(-a.n, a.d))
 
-\* built-in scalar functions modelled exactly (definable over small rationals and short strings)
+\* ---- helpers for the built-in scalar functions (strings are sequences of one-character strings) ----
+RECURSIVE LTrimS(_), RTrimS(_), ReplaceS(_, _, _), Pow(_, _), PadS(_, _), FoldBest(_, _, _)
+LTrimS(cs) == IF cs # <<>> /\ Head(cs) = " " THEN LTrimS(Tail(cs)) ELSE cs
+RTrimS(cs) == IF cs # <<>> /\ cs[Len(cs)] = " " THEN RTrimS(SubSeq(cs, 1, Len(cs) - 1)) ELSE cs
+SubAt(cs, sub, i) == i + Len(sub) - 1 <= Len(cs) /\ SubSeq(cs, i, i + Len(sub) - 1) = sub      \* 1-based position i
+FirstAt(cs, sub) == LET P == {i \in 1..(Len(cs) - Len(sub) + 1) : SubAt(cs, sub, i)} IN
+                    IF P = {} THEN 0 ELSE CHOOSE i \in P : \A j \in P : i <= j
+ReplaceS(cs, old, new) ==
+  IF Len(cs) < Len(old) \/ cs = <<>> THEN cs
+  ELSE IF SubAt(cs, old, 1) THEN new \o ReplaceS(SubSeq(cs, Len(old) + 1, Len(cs)), old, new)
+  ELSE <<Head(cs)>> \o ReplaceS(Tail(cs), old, new)
+Pow(b, k) == IF k = 0 THEN 1 ELSE b * Pow(b, k - 1)
+PadS(c, k) == IF k <= 0 THEN <<>> ELSE <<c>> \o PadS(c, k - 1)
+IsInt(a) == IsRat(a) /\ a.d = 1
+Less(a, b) == a.n * b.d < b.n * a.d
+Trunc(q) == IF q.n >= 0 THEN Floor(q) ELSE Ceil(q)
+\* round half away from zero (math.Round; "四舍五入")
+RoundR(a) == LET f == Floor(Rat(Abs(a.n) * 2 + a.d, a.d * 2)) IN Rat(IF a.n < 0 THEN -f ELSE f, 1)
+ISqrt(n) == IF \E r \in 0..200 : r * r = n THEN CHOOSE r \in 0..200 : r * r = n ELSE -1
+\* greatest / least of a non-empty list of numbers
+FoldBest(xs, i, gt) ==
+  IF i = Len(xs) THEN xs[i]
+  ELSE LET rest == FoldBest(xs, i + 1, gt) IN
+       IF gt THEN (IF Less(xs[i], rest) THEN rest ELSE xs[i]) ELSE (IF Less(rest, xs[i]) THEN rest ELSE xs[i])
+
+\* built-in scalar functions modelled exactly (definable over small rationals and short strings); ErrV = outside the
+\* decided domain (any outcome is accepted there).  Positions are 0-based (substring, indexof), as in the engine's source.
 Call(f, xs) ==
   LET a == IF Len(xs) >= 1 THEN xs[1] ELSE NullV
-      b == IF Len(xs) >= 2 THEN xs[2] ELSE NullV IN
+      b == IF Len(xs) >= 2 THEN xs[2] ELSE NullV
+      c == IF Len(xs) >= 3 THEN xs[3] ELSE NullV IN
   IF \E i \in 1..Len(xs) : xs[i].k = "err" THEN ErrV
   ELSE CASE f = "abs"    -> IF IsRat(a) THEN Rat(Abs(a.n), a.d) ELSE ErrV
          [] f = "floor"  -> IF IsRat(a) THEN Rat(Floor(a), 1) ELSE ErrV
-         [] f = "ceil"   -> IF IsRat(a) THEN Rat(Ceil(a), 1) ELSE ErrV
+         [] f \in {"ceil", "ceiling"} -> IF IsRat(a) THEN Rat(Ceil(a), 1) ELSE ErrV
+         [] f = "round"  -> IF ~IsRat(a) THEN ErrV
+                            ELSE IF Len(xs) = 1 THEN RoundR(a)
+                            ELSE IF IsInt(b) /\ b.n \in 0..2 THEN LET r == RoundR(Norm(a.n * Pow(10, b.n), a.d)) IN Norm(r.n, Pow(10, b.n))
+                            ELSE ErrV
+         [] f = "sign"   -> IF IsRat(a) THEN Rat(IF a.n > 0 THEN 1 ELSE IF a.n < 0 THEN -1 ELSE 0, 1) ELSE ErrV
+         [] f = "power"  -> IF IsRat(a) /\ (Abs(a.n) > 1000 \/ a.d > 1000) THEN ErrV
+                            ELSE IF IsRat(a) /\ IsInt(b) /\ b.n \in 0..3 THEN Norm(Pow(a.n, b.n), Pow(a.d, b.n))
+                            ELSE IF IsRat(a) /\ IsInt(b) /\ b.n \in (-2)..(-1) /\ a.n # 0 THEN Norm(Pow(a.d, -b.n), Pow(a.n, -b.n))
+                            ELSE ErrV
+         [] f = "mod"    -> IF IsRat(a) /\ IsRat(b) /\ b.n # 0
+                              THEN LET q == Norm(a.n * b.d, a.d * b.n)  t == Trunc(q) IN Arith("-", a, Arith("*", b, Rat(t, 1)))
+                              ELSE ErrV
+         [] f = "sqrt"   -> IF IsRat(a) /\ a.n >= 0 /\ ISqrt(a.n) >= 0 /\ ISqrt(a.d) > 0 THEN Norm(ISqrt(a.n), ISqrt(a.d)) ELSE ErrV
+         [] f = "greatest" -> IF xs # <<>> /\ \A i \in 1..Len(xs) : IsRat(xs[i]) THEN FoldBest(xs, 1, TRUE) ELSE ErrV
+         [] f = "least"    -> IF xs # <<>> /\ \A i \in 1..Len(xs) : IsRat(xs[i]) THEN FoldBest(xs, 1, FALSE) ELSE ErrV
          [] f = "upper"  -> IF IsS(a) THEN StrR([i \in 1..Len(a.cs) |-> UpperC(a.cs[i])]) ELSE ErrV
          [] f = "lower"  -> IF IsS(a) THEN StrR([i \in 1..Len(a.cs) |-> LowerC(a.cs[i])]) ELSE ErrV
          [] f = "length" -> IF IsS(a) THEN Rat(Len(a.cs), 1) ELSE ErrV
-         [] f = "concat" -> IF IsS(a) /\ IsS(b) THEN StrR(a.cs \o b.cs) ELSE ErrV
-         [] f = "coalesce" -> IF a.k # "null" THEN a ELSE b
+         [] f = "concat" -> IF \A i \in 1..Len(xs) : IsS(xs[i]) THEN StrR(IF Len(xs) = 2 THEN a.cs \o b.cs ELSE IF Len(xs) = 3 THEN a.cs \o b.cs \o c.cs ELSE a.cs) ELSE ErrV
+         [] f = "trim"   -> IF IsS(a) THEN StrR(LTrimS(RTrimS(a.cs))) ELSE ErrV
+         [] f = "ltrim"  -> IF IsS(a) THEN StrR(LTrimS(a.cs)) ELSE ErrV
+         [] f = "rtrim"  -> IF IsS(a) THEN StrR(RTrimS(a.cs)) ELSE ErrV
+         [] f = "substring" -> IF IsS(a) /\ IsInt(b) /\ b.n >= 0 /\ b.n <= Len(a.cs)
+                                 THEN IF Len(xs) = 2 THEN StrR(SubSeq(a.cs, b.n + 1, Len(a.cs)))
+                                      ELSE IF IsInt(c) /\ c.n >= 0 /\ b.n + c.n <= Len(a.cs) THEN StrR(SubSeq(a.cs, b.n + 1, b.n + c.n))
+                                      ELSE ErrV
+                                 ELSE ErrV
+         [] f = "startswith" -> IF IsS(a) /\ IsS(b) THEN BoolR(SubAt(a.cs, b.cs, 1)) ELSE ErrV
+         [] f = "endswith"   -> IF IsS(a) /\ IsS(b) THEN BoolR(Len(b.cs) <= Len(a.cs) /\ SubAt(a.cs, b.cs, Len(a.cs) - Len(b.cs) + 1)) ELSE ErrV
+         [] f = "indexof"    -> IF IsS(a) /\ IsS(b) /\ b.cs # <<>> THEN Rat(FirstAt(a.cs, b.cs) - 1, 1) ELSE ErrV
+         [] f = "replace"    -> IF IsS(a) /\ IsS(b) /\ IsS(c) /\ b.cs # <<>> THEN StrR(ReplaceS(a.cs, b.cs, c.cs)) ELSE ErrV
+         [] f = "lpad"   -> IF IsS(a) /\ IsInt(b) /\ IsS(c) /\ Len(c.cs) = 1 /\ b.n >= Len(a.cs) THEN StrR(PadS(c.cs[1], b.n - Len(a.cs)) \o a.cs) ELSE ErrV
+         [] f = "rpad"   -> IF IsS(a) /\ IsInt(b) /\ IsS(c) /\ Len(c.cs) = 1 /\ b.n >= Len(a.cs) THEN StrR(a.cs \o PadS(c.cs[1], b.n - Len(a.cs))) ELSE ErrV
+         [] f = "coalesce" -> IF a.k # "null" THEN a ELSE IF Len(xs) >= 3 /\ b.k = "null" THEN c ELSE b
          [] f = "if_null"  -> IF a.k # "null" THEN a ELSE b
+         [] f = "null_if"  -> IF a.k = "null" THEN NullV
+                              ELSE IF b.k = "null" THEN a
+                              ELSE LET e == Compare("=", a, b) IN IF e.k = "err" THEN ErrV ELSE IF IsTrue(e) THEN NullV ELSE a
+         [] f = "is_null"     -> BoolR(a.k = "null")
+         [] f = "is_not_null" -> BoolR(a.k # "null")
+         [] f = "is_numeric"  -> IF a.k = "opaque" THEN ErrV ELSE BoolR(IsRat(a))
+         [] f = "is_string"   -> IF a.k = "opaque" THEN ErrV ELSE BoolR(IsS(a))
+         [] f = "is_bool"     -> IF a.k = "opaque" THEN ErrV ELSE BoolR(IsB(a))
          [] OTHER -> ErrV
 
 RECURSIVE Eval(_, _), CaseEval(_, _, _, _), SCaseEval(_, _, _, _, _)
